@@ -1032,11 +1032,16 @@ namespace BitSerializer::Convert::Utf
 			assert(mStartDataPtr <= mEndDataPtr);
 			if (mInputStream.eof())
 			{
-				// Handle uncompleted sequence at the end of file
-				if (result.ErrorCode == UtfEncodingErrorCode::UnexpectedEnd && Detail::HandleEncodingError(outStr, mEncodingErrorPolicy, mErrorMark))
+				// Handle uncompleted sequence at the end of file (also when the remainder is shorter than one code unit)
+				const bool hasCroppedCodeUnit = result.ErrorCode == UtfEncodingErrorCode::Success && mStartDataPtr != mEndDataPtr;
+				if (result.ErrorCode == UtfEncodingErrorCode::UnexpectedEnd || hasCroppedCodeUnit)
 				{
-					mStartDataPtr = mEndDataPtr = mEncodedBuffer;
-					return EncodedStreamReadResult::Success;
+					if (Detail::HandleEncodingError(outStr, mEncodingErrorPolicy, mErrorMark))
+					{
+						mStartDataPtr = mEndDataPtr = mEncodedBuffer;
+						return EncodedStreamReadResult::Success;
+					}
+					return EncodedStreamReadResult::DecodeError;
 				}
 				return result.ErrorCode == UtfEncodingErrorCode::Success ? EncodedStreamReadResult::Success : EncodedStreamReadResult::DecodeError;
 			}
